@@ -40,6 +40,7 @@ from typing_extensions import (
     NoDefault,
     ParamSpec,
     TypedDict,
+    Unpack,
     get_args,
     get_origin,
 )
@@ -413,6 +414,9 @@ def _type_from_runtime(
     origin = get_origin(val)
     if origin is not None:
         args = get_args(val)
+        if allow_unpack and getattr(val, "__unpacked__", False) is True:
+            # PEP 646: *tuple[int, ...] is equivalent to Unpack[tuple[int, ...]]
+            return UnpackedValue(_value_of_origin_args(origin, args, val, ctx))
         return _value_of_origin_args(
             origin, args, val, ctx, allow_unpack=allow_unpack, is_typeddict=is_typeddict
         )
@@ -1011,6 +1015,10 @@ class _Visitor(ast.NodeVisitor):
     def visit_Attribute(self, node: ast.Attribute) -> Optional[Value]:
         root_value = self.visit(node.value)
         return self.ctx.get_attribute(root_value, node)
+
+    def visit_Starred(self, node: ast.Starred) -> Value:
+        # PEP 646: *tuple[int, ...] is equivalent to Unpack[tuple[int, ...]]
+        return _SubscriptedValue(KnownValue(Unpack), (self.visit(node.value),))
 
     def visit_Tuple(self, node: ast.Tuple) -> Value:
         elts = [(False, self.visit(elt)) for elt in node.elts]
